@@ -783,6 +783,20 @@ class HistSim(Sim):
         SEAM.disarm()
         st.cur_sig = f"bw:{role}:{'x' if crossed else '-'}:{'f' if isinstance(raised, SimFault) else '-'}"
         leaves_reached = [i for i in reach if st.meta[i]["kind"] == "leaf" and st.meta[i]["rg"]]
+        # precision class: a NON-leaf that was once seeded with a float32 g may keep a float32 buffer (re-zeroed in place or replaced -
+        # a dtype matter, C10, not decided here); sweeps crossing it may then accumulate in single precision
+        if any(st.T[i].data.dtype == np.float32 for i in reach if i in st.T):
+            # a single-precision value anywhere in the graph (also the 0-d results this tree re-wraps as float32) puts the sweep in the
+            # single-precision tolerance class: in which dtype an interior buffer accumulates is a dtype matter (C10), not decided here
+            st.lowprec.update(leaves_reached)
+        low_nodes = st.__dict__.setdefault("low_nodes", set())
+        if any(i in low_nodes for i in reach if i != root) and raised is None:
+            # the rounding of such a sweep scales with INTERIOR magnitudes (terms that cancel inside the node), which the leaf-level
+            # tolerance cannot see: these leaves are not judged until their next reset
+            st.unknown.update(leaves_reached)
+            st.notes["sweep_crossed_float32_seeded_node_not_judged"] += 1
+        if g is not None and g.dtype == np.float32 and st.meta[root]["kind"] == "node":
+            low_nodes.add(root)
         if isinstance(raised, SimFault):
             st.faults[f"sweep_{fault['seam']}_{fault['kind']}"] += 1
             st.probes["fault_mid_sweep"] += 1
